@@ -257,28 +257,22 @@ impl UserBoundsTrait<i32> for UserBounds {
     /// Transform a ranged bound into a list of one or more
     /// slot bound
     fn unpack(&self, num_fields: usize) -> Vec<UserBounds> {
-        let mut bounds = Vec::new();
-        let n: i32 = num_fields
-            .try_into()
-            .expect("num_fields was bigger than expected");
-
-        let (start, end): (i32, i32) = match (self.l, self.r) {
-            (Side::Continue, Side::Continue) => (1, n),
-            (Side::Continue, Side::Some(right)) => {
-                (1, if right > 0 { right } else { n + 1 + right })
-            }
-            (Side::Some(left), Side::Some(right)) => (
-                if left > 0 { left } else { n + 1 + left },
-                if right > 0 { right } else { n + 1 + right },
-            ),
-            (Side::Some(left), Side::Continue) => (if left > 0 { left } else { n + 1 + left }, n),
-        };
-
-        for i in start..=end {
-            bounds.push(UserBounds::new(Side::Some(i), Side::Some(i)))
+        match self.try_into_range(num_fields) {
+            Ok(r) => r
+                .map(|i| {
+                    let idx = Side::Some(i as i32 + 1);
+                    UserBounds::new(idx, idx)
+                })
+                .collect(),
+            // A bound that can't be resolved has no slots to enumerate:
+            // it is kept as it is (fallback included), so that whoever
+            // prints it can apply the out-of-bound rules.
+            Err(_) => vec![UserBounds::with_fallback(
+                self.l,
+                self.r,
+                self.fallback_oob.clone(),
+            )],
         }
-
-        bounds
     }
 
     /// Transform a bound in its complement (invert the bound).
